@@ -12,14 +12,14 @@ VALID_ID = "11111111-2222-4333-8444-555555555555"
 
 POOL_SPEC = [
     ("D",), ("D",),
-    ("S", "a"), ("S", "b"), ("S", "a"), ("S", "b"),
-    ("P", "p", 1), ("P", "p", 2), ("P", "q", 3),
+    ("S", "a", "t"), ("S", "b", "t"), ("S", "a", "u"), ("S", "b", "u"),
+    ("P", "p", 1), ("P", "p", "x"), ("P", "q", 3),
 ]
 D0, D1, S0, S1, S2, S3, P0, P1, P2 = range(9)
 
 START_DETACHED = []
 START_BUILT = [["append", D0, S0], ["append", S0, S2], ["append", S0, P0],
-               ["append", D0, S1], ["append", S1, P1]]
+               ["append", D0, S1], ["append", S1, S3], ["append", S1, P1]]
 
 
 def build_pool():
@@ -29,7 +29,7 @@ def build_pool():
         if spec[0] == "D":
             pool.append(odml.Document())
         elif spec[0] == "S":
-            pool.append(odml.Section(name=spec[1], type="t"))
+            pool.append(odml.Section(name=spec[1], type=spec[2]))
         else:
             pool.append(odml.Property(name=spec[1], values=[spec[2]]))
     return pool
